@@ -41,6 +41,7 @@ type interpreter struct {
 	maxSteps   int64
 	tracing    bool
 	side       map[interface{}]interface{} // per-path side tables (mutex state, ...)
+	origin     map[*value][]value          // interior pointer -> the container it points into (for fork deep copies)
 	errString  types.Type
 }
 
@@ -321,7 +322,10 @@ func visitInstr(fr *frame, instr ssa.Instruction) continuation {
 		if p == nil {
 			panic(runtimePanic{"invalid memory address or nil pointer dereference"})
 		}
-		fr.env[instr] = &(*p).(structure)[instr.Field]
+		st := (*p).(structure)
+		fp := &st[instr.Field]
+		i.origin[fp] = []value(st)
+		fr.env[instr] = fp
 
 	case *ssa.Field:
 		fr.env[instr] = fr.get(instr.X).(structure)[instr.Field]
@@ -343,9 +347,14 @@ func visitInstr(fr *frame, instr ssa.Instruction) continuation {
 		idx := i.index(fr.get(instr.Index), instr.Index.Type(), n)
 		switch x := x.(type) {
 		case []value:
-			fr.env[instr] = &x[idx]
+			ep := &x[idx]
+			i.origin[ep] = x
+			fr.env[instr] = ep
 		case *value: // *array
-			fr.env[instr] = &(*x).(array)[idx]
+			arr := (*x).(array)
+			ep := &arr[idx]
+			i.origin[ep] = []value(arr)
+			fr.env[instr] = ep
 		}
 
 	case *ssa.Index:
